@@ -183,9 +183,23 @@ func runC03(c *vlib.Ctx) {
 		}
 		c.Nontrivial(fmt.Sprintf("%s|%v|%v", j.w, j.cuts, j.modes))
 	})
+	// Second enumeration: every repo-level state reachable by the C07 request alphabet (BFS with canonical-state
+	// dedupe); after every state-changing request the stored metadata is loaded by the start-up path into a second,
+	// read-only manager, which must equal the live one (DAG, flags, notes, logs, instances, branch heads, id maps, id counters).
+	rdepth := 5
+	if c.Thorough() {
+		rdepth = 6
+	}
+	dstates, dtrans, _, dreloads := c07BFS(c, rdepth, 4, true)
+	c.Set("dagreload_states", dstates)
+	c.Set("dagreload_transitions", dtrans)
+	c.Set("dagreload_reload_comparisons", dreloads)
+	c.Set("dagreload_bound", fmt.Sprintf("BFS depth %d over the repo-level request alphabet of C07, states with more than 4 nodes or 2 repos not expanded", rdepth))
+	states += dstates
+	transitions += dtrans
 	c.Set("states", states)
 	c.Set("transitions", transitions)
-	c.Set("traces_validated_against_impl", int64(len(jobs)))
+	c.Set("traces_validated_against_impl", int64(len(jobs))+dreloads)
 	c.Set("workloads", names)
 	c.Sample(map[string]interface{}{"workload": "labelmap", "ops": "newrepo instance ingest merge commit newversion merge cleave split-supervoxel renumber nextlabel rawmutate", "restart": "abrupt exit after cleave, new process, continue", "compared": "repo metadata + every read endpoint of every version, at the restart and after each later op"})
 	c.Set("rule", "history = workload prefix; a restart (clean shutdown / abrupt exit while idle) is placed after every operation (thorough: every pair of positions); state = uuid- and time-free snapshot of repo metadata and of every data read endpoint at every version; it must equal the snapshot of the never-restarted run at the restart and after every later operation")
